@@ -98,7 +98,7 @@ def tasks_single(prop, tier, seed):
     from . import variants
 
     # thorough sample sizes are set so that one thorough run stays around an hour (C15 has many slow-path queries)
-    n_thorough = {"C15": 2500, "C09": 4000}.get(prop, 6000)
+    n_thorough = {"C15": 1500, "C09": 4000}.get(prop, 6000)
     entries = entries + variants.variant_corpus(entries, 16 if tier == "quick" else 60, 700 if tier == "quick" else n_thorough, salt=prop)
     if tier == "thorough":
         entries += [e for e in corpus_T() if e["trait"] not in (tr, "ast", "global")]
